@@ -8,7 +8,7 @@ over a fixed block tree (`P` = parent function as in Spec, root 0 = genesis), cu
 fine).  The block side covers every delivery-only history: duplicates, orphans, extend-tip, side
 chain, re-organisation including branches with invalid or known-invalid blocks (C02's `ChainCore`
 models the same code with the header entries inside one index; the driver runs both models and
-flags any disagreement).  Not modelled: the orphan pool bound (100) and the one-hour expiry.
+flags any disagreement).  Not modelled: the one-hour orphan expiry.
 Core-only.
 -/
 import BV.C17.Spec
@@ -31,6 +31,7 @@ structure BState where
   invAnc : List Nat := []       -- statusInvalidAncestor (set by failed re-organisations only)
   tip : Nat := 0                -- best chain tip
   orphans : List Nat := []      -- orphan pool, arrival order
+  oldest : Option Nat := none   -- cached `oldestOrphan` pointer (can be stale: not reset on removal)
   deriving Repr, DecidableEq
 
 /-- what header deliveries change -/
@@ -119,11 +120,28 @@ def flush (e : Env) : Nat → BState → List Nat → Option Res → BState × O
       else (b2, acc.2.1 ++ [k], acc.2.2)) (b, [], err)
     flush e f r.1 (rest ++ r.2.1) r.2.2
 
-/-- `ProcessBlock` for a block that passes `checkBlockSanity` (orphan pool bound and 1 h expiry not
-    modelled) -/
+def MAX_ORPHANS : Nat := 100
+
+/-- `addOrphanBlock` without the one-hour expiry: the cached oldest pointer is refreshed from the
+    pool only when it is nil (a non-nil pointer is never newer than any pool member, but may name an
+    orphan that has left the pool); when the pool is full the orphan it names is removed — nothing
+    is removed when it is stale — and the pointer is cleared -/
+def addOrphan (b : BState) (n : Nat) : BState :=
+  let cand : Option Nat := match b.oldest with
+    | some o => some o
+    | none => b.orphans.head?
+  let b1 : BState :=
+    if b.orphans.length + 1 > MAX_ORPHANS then
+      match cand with
+      | some o => { b with orphans := b.orphans.erase o, oldest := none }
+      | none => b
+    else { b with oldest := cand }
+  { b1 with orphans := b1.orphans ++ [n] }
+
+/-- `ProcessBlock` for a block that passes `checkBlockSanity` (one-hour orphan expiry not modelled) -/
 def stepBlock (e : Env) (b : BState) (n : Nat) : BState × Res :=
   if b.data.contains n || b.orphans.contains n then (b, .dup)
-  else if !b.data.contains (e.parent n) then ({ b with orphans := b.orphans ++ [n] }, .orphan)
+  else if !b.data.contains (e.parent n) then (addOrphan b n, .orphan)
   else
     let (b1, r) := accept e b n
     if r.isErr then (b1, r)
@@ -166,7 +184,7 @@ def headerKnownOnBest (e : Env) (b : BState) (h : HState) (n : Nat) : Bool :=
 
 /-- a restart (close, `blockchain.New` on the same database): header-only index entries and the
     orphan pool are not persisted, the best header is reset to the best chain tip -/
-def restartB (b : BState) : BState := { b with orphans := [] }
+def restartB (b : BState) : BState := { b with orphans := [], oldest := none }
 def restartH (b : BState) : HState := { hdrIdx := [], accepted := [], best := b.tip }
 
 inductive Op
